@@ -361,7 +361,7 @@ def run_concurrent(args):
         def reader():
             r = random.Random(args["seed"] + 2)
             while not stop.is_set():
-                if r.random() < 0.8:
+                if r.random() < (0.8 if args.get("judge", "multiget") == "multiget" else 0.25):
                     hrefs = [w.url(col, nm) for nm in r.sample(names, r.randint(1, 3))]
                     resp = FE.raw_http(w.fe.addr, "REPORT", w.url(col), [("Depth", "1"), X.XML_CT], X.multiget(kind, hrefs, data=True), timeout=30)
                     if resp.status != 207:
@@ -404,12 +404,17 @@ def run_concurrent(args):
             res.count("concurrent_pairs_judged")
             res.count("concurrent_pairs_judged:" + via)
             if tok not in toks:
-                sig = f"aio/{args['backend']}/{kind}/concurrent-overwrite/etag-of-one-write-with-data-of-another" if via == "multiget" else f"aio/{args['backend']}/{kind}/concurrent-overwrite/get-serves-etag-of-one-write-with-body-of-another"
-                if via == "get":
-                    # GET is not this property's subject: reported as an observation
-                    res.count("observation:get-etag-body-mismatch")
+                judge = args.get("judge", "multiget")
+                if via != judge:
+                    # the other view is not the calling property's subject: an observation
+                    res.count("observation:%s-etag-body-mismatch" % via)
                     continue
-                res.violation(sig, f"multiget answered {href!r} with ETag {et} (issued for body {sorted(toks)!r}) together with the data of write {tok!r}", {"config": dict(args)})
+                if via == "multiget":
+                    res.violation(f"aio/{args['backend']}/{kind}/concurrent-overwrite/etag-of-one-write-with-data-of-another",
+                                  f"multiget answered {href!r} with ETag {et} (issued for body {sorted(toks)!r}) together with the data of write {tok!r}", {"config": dict(args)})
+                else:
+                    res.violation(f"aio/{args['backend']}/{kind}/concurrent-overwrite/get-serves-etag-of-one-write-with-body-of-another",
+                                  f"GET {href!r} answered ETag {et} (issued for body {sorted(toks)!r}) with the body of write {tok!r}: one ETag, two byte strings", {"config": dict(args)})
         res.count("concurrent_runs")
         res.count("concurrent_writes", counts["writes"])
         res.count("concurrent_multigets", counts["multigets"])
